@@ -32,3 +32,35 @@ Theorem C02_one_shared_accessor_breaks_it :
   exists mode ops, ~ observe_eq (run mode (init (fun _ => 0%Z) (fun _ => 0%Z)) ops) (init (fun _ => 0%Z) (fun _ => 0%Z)).
 Proof. exact shared_accessor_refuted. Qed.
 Print Assumptions C02_one_shared_accessor_breaks_it.
+
+(* ---- first clause: the arrays handed to the constructor ----------------------------------------------
+   (heap model, Model/Heap.v: the object's parts point to cells, the caller keeps the addresses of his
+   own arrays).  A constructor that copies each array it is given, with accessors that hand out copies:
+   after EVERY history of reads, writes - through returned objects and through the caller's own arrays -
+   and method runs, every part reports what was handed to the constructor. *)
+From SKC Require Import Model.Heap Theory.Heap.
+Theorem C02_constructor_inputs_are_values : forall n input copies,
+  (forall p, copies p = true) ->
+  forall ops p, p < n -> report (hrun copies (construct impl_cmode n input) ops) p = input p.
+Proof. exact constructor_inputs_are_values. Qed.
+Print Assumptions C02_constructor_inputs_are_values.
+
+(* necessity: a constructor that keeps one array of the caller breaks it ... *)
+Theorem C02_adopting_constructor_breaks_it :
+  exists cm n input ops p,
+    p < n /\ report (hrun (fun _ => true) (construct cm n input) ops) p <> input p.
+Proof. exact adopting_constructor_refuted. Qed.
+Print Assumptions C02_adopting_constructor_breaks_it.
+
+(* ... and so does one accessor that hands out the cell itself *)
+Theorem C02_sharing_accessor_breaks_it_on_the_heap :
+  exists n input ops p,
+    p < n /\ report (hrun (fun _ => false) (construct impl_cmode n input) ops) p <> input p.
+Proof. exact sharing_accessor_refuted. Qed.
+Print Assumptions C02_sharing_accessor_breaks_it_on_the_heap.
+
+Example C02_heap_history :
+  let s := hrun (fun _ => true) (construct impl_cmode 3 (fun k => Z.of_nat (10 + k)))
+                [HWrite 0 99%Z; HRead 1; HWrite 0 77%Z; HRun; HWrite 3 55%Z; HRead 0; HWrite 0 1%Z] in
+  map (report s) [0; 1; 2] = [10; 11; 12]%Z.
+Proof. exact heap_history_reports_the_input. Qed.
